@@ -6,13 +6,13 @@ Variable powf : fbits -> fbits -> fbits.
 Variable pre : prelude.
 Variable red : reducers.
 
-(* Code::parse: every top-level statement is created and then recreated against the
-   SAME LocalVariables (the parse interpreter's variables are [sc]) *)
+(* Code::parse: every top-level statement is created in a scratch layer (dropped) and then
+   recreated against the base LocalVariables (the parse interpreter's variables are [sc]) *)
 Fixpoint parse_top (fuel : nat) (sc : scopes) (e : lenv) (l : list sline) : outcome (list instr * lenv) :=
   match l with
   | [] => Ok ([], e)
   | ln :: l =>
-      obind (check_lines red fuel sc e [ln]) (fun '(is, e) =>
+      obind (check_lines red fuel sc (lenv_push e) [ln]) (fun '(is, _) =>
       match is with
       | [i] =>
           obind (recreate powf fuel sc e i) (fun '(i', e) =>
